@@ -546,11 +546,57 @@ def _check_inconsistent_match(out, obj, b, mode):
         mode, b1.hex(), b2.hex()), cls="ofp_match", mode=mode)
 
 
+def _check_change(out, case):
+  """Objects are mutable and POX's idiom is to build them up by attribute assignment and list appends.  An
+  object that was already encoded (or measured) once and is then changed must encode its *new* state."""
+  frag, change = case["frag"], case["then"]
+  kind = frag["k"]
+  out.label("kind:" + kind, "cat:change")
+  f2 = dict(frag["f"])
+  for k, v in change.get("set", {}).items():
+    f2[k] = v
+  for k, v in change.get("extend", {}).items():
+    f2[k] = list(frag["f"].get(k, [])) + list(v)
+  try:
+    exp = R.encode(G.complete({"k": kind, "f": f2}))
+  except (R.RefError, ValueError, KeyError) as e:
+    raise HarnessError("change case outside the reference domain: %r for %s" % (e, _short(case)))
+  out.nontrivial = True
+  fields = sorted(set(change.get("set", {})) | set(change.get("extend", {})))
+  obj = _guard(out, "construct", lambda: G.build(frag))
+  ok, _ = _try(out, "pack", obj.pack)
+  if not ok:
+    return
+  _try(out, "len", lambda: len(obj))
+  donor_f = dict(_min_frag(kind))
+  donor_f.update(change.get("set", {}))
+  donor_f.update(change.get("extend", {}))
+  donor = _guard(out, "construct", lambda: G.build({"k": kind, "f": donor_f}))
+  for k in change.get("set", {}):
+    setattr(obj, k, getattr(donor, k))
+  for k in change.get("extend", {}):
+    getattr(obj, k).extend(getattr(donor, k))
+  ok, b = _try(out, "pack", obj.pack)
+  if not ok:
+    return
+  ok, ln = _try(out, "len", lambda: len(obj))
+  if kind in _FM_KINDS:
+    ign = R.match_ignored_wildcards(G.complete({"k": kind, "f": f2})["f"]["match"])
+    b, exp = _mask_wildcards(b, 8, ign), _mask_wildcards(exp, 8, ign)
+  if b != exp or (ok and ln != len(b)) or (R.is_message(kind) and struct.unpack_from("!H", b, 2)[0] != len(b)):
+    out.fail("repack-after-change", "%s: after changing %s on an object that had been packed, pack() does not encode the new "
+             "state (len() %s, header length %s): %s" % (kind, fields, ln, struct.unpack_from("!H", b, 2)[0] if R.is_message(kind) else "-",
+                                                         _hexdiff(b, exp)), cls=kind, field=fields[0] if fields else "?")
+
+
 def run_case(case):
   setup()
   out = Outcome()
   try:
-    _check_object(out, case)
+    if "then" in case:
+      _check_change(out, case)
+    else:
+      _check_object(out, case)
   except _Stop:
     pass
   return out
@@ -873,8 +919,45 @@ def enum_nicira(tier):
     yield _case({"k": "nx_flow_mod", "f": {"xid": 1, "actions": acts}})
 
 
+def enum_change(tier):
+  act = lambda p: {"k": "ofp_action_output", "f": {"port": p}}
+  m1 = {"dl_type": 0x0800, "nw_proto": 6, "tp_dst": 80}
+  C = lambda frag, **then: {"frag": frag, "then": then}
+  # scalar fields of every OF 1.0 message
+  for kind in G.OF10_MESSAGE_KINDS:
+    base = _min_frag(kind)
+    for name, bits in R.int_fields(kind):
+      if (kind, name) in _GRID_SKIP or (kind, name) in (("ofp_packet_out", "buffer_id"), ("ofp_packet_in", "total_len")):
+        continue
+      yield C({"k": kind, "f": dict(base)}, set={name: (1 << bits) - 2})
+  for kind, name, v in (("ofp_echo_request", "body", b"abc"), ("ofp_echo_reply", "body", b"abc"), ("ofp_error", "data", b"abcd"),
+                        ("ofp_vendor_generic", "data", b"abcd"), ("ofp_packet_in", "data", b"frame"),
+                        ("ofp_packet_out", "data", b"frame"), ("ofp_flow_mod", "match", m1), ("ofp_flow_removed", "match", m1),
+                        ("ofp_port_mod", "hw_addr", b"\1\2\3\4\5\6"), ("ofp_port_status", "desc", {"port_no": 3, "name": "x"}),
+                        ("ofp_flow_mod", "actions", [act(1), act(2)]), ("ofp_packet_out", "actions", [act(1)]),
+                        ("ofp_features_reply", "ports", [{"port_no": 1}, {"port_no": 2}]),
+                        ("ofp_queue_get_config_reply", "queues", [{"queue_id": 1, "properties": [{"k": "ofp_queue_prop_min_rate", "f": {"rate": 5}}]}])):
+    yield C({"k": kind, "f": _min_frag(kind)}, set={name: v})
+  for kind, name, v in (("ofp_flow_mod", "actions", [act(3)]), ("ofp_packet_out", "actions", [act(3)]),
+                        ("ofp_features_reply", "ports", [{"port_no": 9}]),
+                        ("ofp_queue_get_config_reply", "queues", [{"queue_id": 7}])):
+    for first in ([], v):
+      yield C({"k": kind, "f": dict(_min_frag(kind), **{name: first})}, extend={name: v})
+  # statistics containers: new body of the same type, and entries appended to a list body
+  req = lambda p: {"k": "ofp_port_stats_request", "f": {"port_no": p}}
+  yield C({"k": "ofp_stats_request", "f": {"xid": 1, "body": req(1)}}, set={"body": req(2)})
+  yield C({"k": "ofp_stats_request", "f": {"xid": 1, "body": {"k": "ofp_flow_stats_request", "f": {}}}},
+          set={"body": {"k": "ofp_flow_stats_request", "f": {"match": m1, "table_id": 1}}})
+  ps = lambda p: {"k": "ofp_port_stats", "f": {"port_no": p, "rx_packets": p}}
+  yield C({"k": "ofp_stats_reply", "f": {"xid": 1, "body": [ps(1)]}}, set={"body": [ps(2), ps(3)]})
+  yield C({"k": "ofp_stats_reply", "f": {"xid": 1, "body": [ps(1)]}}, extend={"body": [ps(2)]})
+  yield C({"k": "ofp_stats_reply", "f": {"xid": 1, "type": 4, "body": []}}, extend={"body": [ps(2), ps(3)]})
+  yield C({"k": "ofp_stats_reply", "f": {"xid": 1, "body": {"k": "ofp_aggregate_stats", "f": {"flow_count": 1}}}},
+          set={"body": {"k": "ofp_aggregate_stats", "f": {"flow_count": 2}}})
+
+
 def _all_enum(tier):
-  for g in (enum_grid, enum_match, enum_limits) + ((enum_nicira,) if _NICIRA else ()):
+  for g in (enum_grid, enum_match, enum_limits, enum_change) + ((enum_nicira,) if _NICIRA else ()):
     for c in g(tier):
       yield c
 
